@@ -3,7 +3,7 @@ From Coq Require Import List ZArith Bool Arith Lia.
 Import ListNotations.
 Require Import Verif.gen.Consts_trie Verif.MapTrieModel Verif.MapTrieSpec Verif.MapTrieProofs Verif.MapTrieProofs2
                Verif.MapTrieIter Verif.MapTrieIds Verif.MapTrieIter3 Verif.MapTrieIter4 Verif.MapTrieIter6
-               Verif.MapTrieSafe1 Verif.MapTrieSafe2 Verif.MapTrieSafe3.
+               Verif.MapTrieSafe1 Verif.MapTrieSafe2 Verif.MapTrieSafe3 Verif.MapTrieView.
 
 (* ---------- the iterator table ---------- *)
 Lemma parked_cons : forall hi l id, parked (hi :: l) id = (if on_id id hi then 1 else 0) + parked l id.
@@ -125,7 +125,8 @@ Qed.
 
 (* trie_iter_free of an open iterator *)
 Lemma saf_iter_free : forall t h it, SafT t -> iters_get (t_iters t) h = Some it ->
-  exists r evs, iter_free (t_root t) it = Ok (r, evs) /\ Saf r (iters_del (t_iters t) h) (t_next t).
+  exists r evs, iter_free (t_root t) it = Ok (r, evs) /\ Saf r (iters_del (t_iters t) h) (t_next t) /\
+                forall q, dview (obs_t r q) = dview (obs_t (t_root t) q).
 Proof.
   intros t h it HS G. unfold SafT in HS. pose proof (get_in _ _ _ G) as Hin.
   pose proof (del_nodup _ h (sf_handles _ _ _ HS)) as [ND _].
@@ -133,11 +134,11 @@ Proof.
   { intros. apply del_in in H. eapply (sf_plain _ _ _ HS); eauto. }
   assert (WK : Saf (t_root t) (iters_del (t_iters t) h) (t_next t)).
   { apply saf_weaken with (its := t_iters t); auto. intros id _. pose proof (parked_del _ _ _ id G). lia. }
-  unfold iter_free. destruct (it_n it) as [pid|] eqn:N; [|eauto].
+  unfold iter_free. destruct (it_n it) as [pid|] eqn:N; [|eauto 6].
   destruct (Nat.eq_dec pid 0) as [e|e].
   - subst pid. destruct (sf_ids _ _ _ HS) as [_ [_ [H0 _]]]. rewrite <- H0, find_root.
     unfold node_deref. simpl. destruct (t_root t) as [i0 s0 f0] eqn:R. simpl in *.
-    pose proof (sf_hval _ _ _ HS) as HV. simpl in HV. unfold alive_i. rewrite HV. eauto.
+    pose proof (sf_hval _ _ _ HS) as HV. simpl in HV. unfold alive_i. rewrite HV. eauto 6.
   - assert (P1 : 1 <= parked (t_iters t) pid).
     { pose proof (parked_del _ _ _ pid G) as X. unfold on_id in X. simpl in X. rewrite N, Nat.eqb_refl in X. lia. }
     destruct (sf_ids _ _ _ HS) as [U [_ [H0 _]]].
@@ -146,7 +147,10 @@ Proof.
     destruct (pa_real _ _ _ _ _ HS Gp Hpp) as [PAi _]. rewrite Ei in PAi.
     pose proof (all_get_at _ _ _ _ (sf_wf _ _ _ HS) Gp) as [Wa _].
     pose proof (saf_deref _ _ _ pp tn WK Hpp Gp) as D.
-    destruct (node_deref (t_root t) pp) as [r1 evs]. exists r1, evs. split; auto. simpl in D. apply D.
-    + intro Z. destruct (Wa Z) as [_ [R0 _]]. lia.
-    + rewrite Ei. pose proof (parked_del _ _ _ pid G) as X. unfold on_id in X. simpl in X. rewrite N, Nat.eqb_refl in X. lia.
+    pose proof (fun q => deref_view (t_root t) pp tn q (sf_wf _ _ _ HS) Gp Hpp) as DV.
+    destruct (node_deref (t_root t) pp) as [r1 evs]. exists r1, evs. split; auto. simpl in D, DV. split.
+    + apply D.
+      * intro Z. destruct (Wa Z) as [_ [R0 _]]. lia.
+      * rewrite Ei. pose proof (parked_del _ _ _ pid G) as X. unfold on_id in X. simpl in X. rewrite N, Nat.eqb_refl in X. lia.
+    + intro q. apply DV. intro R1. lia.
 Qed.
